@@ -97,6 +97,27 @@ pub fn run(args: &Args) -> serde_json::Value {
     let mut n_worm_steps = 0;
     let mut n_importance = 0;
     let two64 = 18446744073709551616.0f64;
+    // ---- the witness of the Coq theorem C19_worm_refuted, replayed on the implementation: from [up, up] on one
+    // edge J = 1 with biases (1/2, 1/2) a worm time step ends in [down, down] whatever the last word is, although the
+    // reported energy rises by 2 (known finding "worm")
+    {
+        let w = CSpec { edges: vec![((0, 1), 1.0)], biases: vec![0.5, 0.5], state: vec![true, true], importance: false };
+        let mut ends = vec![];
+        for start in [0u64, u64::MAX] {
+            for last in [0u64, u64::MAX] {
+                let mut g = w.build(TapeRng::scripted(vec![u64::MAX, start, 0, last], 7), &w.state);
+                let r = catch_unwind(AssertUnwindSafe(|| g.do_time_step(1.0, Some(1), Some(1), Some(1), Some(false))));
+                if let Ok(Ok(())) = r {
+                    ends.push((g.clone_state(), g.get_energy()));
+                }
+            }
+        }
+        let e0 = w.energy(&w.state);
+        if ends.len() == 4 && ends.iter().all(|(s, e)| s == &vec![false, false] && *e > e0 + 1.0) {
+            oracle_failures.push(json!({"key": "worm", "what": "witness of C19_worm_refuted reproduced on the implementation: the worm move takes [up, up] to [down, down] for every acceptance word although the reported energy rises from 0 to 2 (dE = +2)",
+                "context": {"edges": w.edges, "biases": w.biases, "state": w.state, "beta": 1.0, "end_states": ends.iter().map(|(s, e)| json!([s, e])).collect::<Vec<_>>()}}));
+        }
+    }
     for ci in 0..n_cases {
         let spec = random_cspec(&mut rng, ci % 4 != 0);
         if spec.importance {
